@@ -8,7 +8,7 @@ import pgncorr
 
 PROP_FILES = ["N2k/Props/C09.lean"] + [f"N2k/Tables/T{k:02d}.lean" for k in range(16)] + ["N2k/Tables/TLk2.lean"]
 LEAN_TARGETS = ["N2k.Props.C09", "N2k.Tables.TLk2"]
-SUITE_NAMES = ["gen-encoders-roundtrip", "gen-encoders-values", "codec-encode-number"]
+SUITE_NAMES = ["gen-encoders-roundtrip", "gen-encoders-values", "codec-encode-number", "encoder-shared-instance"]
 ASSUMPTIONS = ["the full property is false of this code base for non-NUMBER kinds (masked, not rejected) — recorded as known findings keyed by field kind; the theorems carry the explicit `fits` hypothesis"]
 TRUSTED_EXTRA = ["C09: T1 translator; hand models Codec/Interp tied by T3 over the value classes of the quantifier for every encodable definition"]
 
@@ -49,14 +49,17 @@ def suite_encode_number(ctx):
 
 def correspondence(ctx):
     q = ctx["tier"] == "quick"
-    return pgncorr.suite_encoders(ctx, 4 if q else 40, 3 if q else 10) + [suite_encode_number(ctx)]
+    import enccorr
+    return pgncorr.suite_encoders(ctx, 4 if q else 40, 3 if q else 10) + [suite_encode_number(ctx)] + enccorr.suite_shared_encoder(ctx)
 
 
 def search(ctx, broken, corr_broken, n_mut=99):
     global LAST_SEARCH_CANDIDATES
     hits, n = pgncorr.c09_search(ctx, n_mut)
-    LAST_SEARCH_CANDIDATES = n
-    return [{"key": k, "what": what, "replay": {"kind": "c09", "function": sfx, "case": list(case)}} for k, what, sfx, case in hits]
+    import enccorr
+    more, n2 = enccorr.monitor_shared(ctx, "C09")
+    LAST_SEARCH_CANDIDATES = n + n2
+    return [{"key": k, "what": what, "replay": {"kind": "c09", "function": sfx, "case": list(case)}} for k, what, sfx, case in hits] + more
 
 
 def standing_search(ctx):
@@ -64,4 +67,7 @@ def standing_search(ctx):
 
 
 def replay(rp):
+    if rp.get("kind") == "encoder-history":
+        import enccorr
+        return enccorr.replay_shared(rp)
     return False, "re-run `check.py C09`: " + str(rp.get("what") or rp.get("broken_theorems") or rp.get("broken_correspondence"))[:500]
